@@ -157,8 +157,8 @@ func sLt(a, b string) string { return sx("<", a, b) }
 func sGe(a, b string) string { return sx(">=", a, b) }
 func sGt(a, b string) string { return sx(">", a, b) }
 
-func sSelect(a, i string) string    { return sx("select", a, i) }
-func sStore(a, i, v string) string  { return sx("store", a, i, v) }
+func sSelect(a, i string) string   { return sx("select", a, i) }
+func sStore(a, i, v string) string { return sx("store", a, i, v) }
 func sBool(b bool) string {
 	if b {
 		return "true"
